@@ -10,8 +10,8 @@ Translated (regenerated from the current source text on every run; Gallina names
   EnableInserter (the same chain + its own on_fragment / _insert_control)
                                                 enable_on_memory, enable_on_fragment
   DomainRenamer.__init__                        rename_init_str, rename_init_dict
-  DomainRenamer  (ValueVisitor.on_value + ValueTransformer.on_*, StatementVisitor.on_statement +
-                  StatementTransformer.on_*, map_statements, map_memory_ports, on_fragment)
+  DomainRenamer  (ValueVisitor.on_value + ValueTransformer.on_* + on_ClockSignal / on_ResetSignal,
+                  StatementVisitor.on_statement + StatementTransformer.on_*, map_statements, map_memory_ports, on_fragment)
                                                 rename_on_value, rename_on_statement, rename_on_memory, rename_on_fragment
 
 Method: a small partial evaluator for the object-oriented Python of _xfrm.py.  Method calls on `self` / `super()` are
@@ -41,10 +41,14 @@ TRUSTED BASE of this unit (besides py2gallina's operator mapping, which is reuse
     wf_expr / wf_lhs of the model); Switch(test, [(k, stmts, None)]) with an integer key k normalises it as
     Switch.__init__ does (prelude switch_int_key: Derived.normalize_patterns then to_binary(key & mask, len(test)));
     already normalised patterns are kept; v[a:b] is Derived.mk_getitem_key (tied to Value.__getitem__ by unit
-    `derived`), Mux is Derived.mk_mux (unit `derived`), a & b is Operator('&') and v.eq(x) is Assign(v, x) (the
-    one-line bodies of Value.__and__ / Value.eq / Value.__len__ are compared with the expected text on every run);
+    `derived`), Mux is Derived.mk_mux (unit `derived`), a & b / a | b are Operator('&') / Operator('|') and v.eq(x) is Assign(v, x) (the
+    one-line bodies of Value.__and__ / __or__ / eq / __len__ are compared with the expected text on every run);
   * Statement.cast of a statement list is that list, of one statement the singleton list; flatten() over statements
     is the list; map(f, l) is List.map;
+  * late-bound signals (DomainRenamer only): ClockSignal(d) / ResetSignal(d, allow_reset_less=True) / ResetSignal(d) are
+    the pseudo signals ESig (cs_index base d k) (Sh 1 false), k = 0 / 1 / 2, of Model/Xfrm.v (cs_decode); the ESig branch of
+    the value transformer is specialised three times (ClockSignal, ResetSignal, Signal) under `match cs_decode base i_`;
+    `.domain` is d, `.allow_reset_less` is k = 1;
   * an AssertionError / the `assert False` tail of a type dispatch inside LHSMaskCollector leaves the collector
     unchanged (the model's `| _ => acc`; unreachable for assignable targets, see GenEqXfrm.lhs_ok);
   * `while` loops run on fuel `Z.to_nat (measure) + fuel_` with the measures of WHILE_MEASURE; GenEqXfrm proves the
@@ -299,6 +303,14 @@ def expr_ctors():
     return out
 
 
+def late_bound_ctors():
+    """ClockSignal / ResetSignal: pseudo signals ESig (cs_index base d k) of the model (Xfrm.cs_decode); used inside
+    the ESig branch of the DomainRenamer value transformer only."""
+    return [Ctor("Some (d_, O)", "ClockSignal", "expr", {"domain": V("d_", "dom")}),
+            Ctor("Some (d_, S k_)", "ResetSignal", "expr", {"domain": V("d_", "dom"),
+                                                             "allow_reset_less": V("(Nat.eqb k_ 0)", "bool")})]
+
+
 def stmt_ctors():
     return [Ctor("SAssign l_ r_", "Assign", "stmt", {"lhs": V("l_", "expr"), "rhs": V("r_", "expr")}),
             Ctor("SSwitch t_ cs_", "Switch", "stmt", {"test": V("t_", "expr"), "cases": V("cs_", T_CASES_S)})]
@@ -346,6 +358,7 @@ class PE:
         self.drystack = []
         self.raised_in_dry = False
         self.fuel_param = False
+        self.base_param = False
         self._lv_mod = False
         self.domnames = {}       # python domain name -> Gallina term (besides "comb")
         self.state_mode = None   # "lhs" when generating a LHSMaskCollector entry (assert failure = unchanged)
@@ -952,6 +965,20 @@ class PE:
                     out.append(f"({pats}, {self.to_term(body, T_STMTS, n)})")
                 return V(f"(SSwitch {tt} [" + "; ".join(out) + "])", "stmt", pycls="Switch")
             return V(f"(SSwitch {tt} {self.to_term(cs, T_CASES_S, n)})", "stmt", pycls="Switch")
+        if ftxt == "ClockSignal" and len(n.args) == 1 and not n.keywords:
+            if not self.base_param:
+                fail(n, "late-bound signal outside the DomainRenamer value transformer")
+            d = self.to_term(self.ev(n.args[0]), "dom", n)
+            return V(f"(ESig (cs_index base {d} 0) (Sh 1 false))", "expr")
+        if ftxt == "ResetSignal" and len(n.args) == 1:
+            if not self.base_param:
+                fail(n, "late-bound signal outside the DomainRenamer value transformer")
+            kw = self.kwargs(n, ("allow_reset_less",))
+            if set(kw) != {"allow_reset_less"}:
+                fail(n, "ResetSignal(domain, allow_reset_less=...) expected")
+            d = self.to_term(self.ev(n.args[0]), "dom", n)
+            b = self.as_bool(kw["allow_reset_less"], n)
+            return V(f"(ESig (cs_index base {d} (if {b} then 1 else 2)%nat) (Sh 1 false))", "expr")
         # ---- objects
         if ftxt == "LHSMaskCollector" and not n.args and not n.keywords:
             o = self.new_obj("LHSMaskCollector", {})
@@ -1731,6 +1758,7 @@ class PE:
         self.kraise = None
         self.yield_cell = None
         self.fuel_param = False
+        self.base_param = False
         self.domnames = {}
         self.drystack = []
 
@@ -1761,14 +1789,21 @@ def check_param_names(fn):
             raise Unsupported(f"{fn.name}: parameter name {a.arg} clashes with generated names")
 
 
-def specialise(pe, ctors, recv_of, mname, var, extra_args, kfinal_of, lhs_mode):
-    branches = []
-    for c in ctors:
+def specialise(pe, ctors, recv_of, mname, var, extra_args, kfinal_of, lhs_mode, late_bound=False):
+    def one(c):
         pe.reset()
         pe.state_mode = "lhs" if lhs_mode else None
+        pe.base_param = late_bound
         recv = recv_of()
         v = V(var, c.ty, pycls=c.cls, ctor=c)
-        body = pe.run(recv, mname, [v] + extra_args(), kfinal_of(recv))
+        return pe.run(recv, mname, [v] + extra_args(), kfinal_of(recv))
+    branches = []
+    for c in ctors:
+        body = one(c)
+        if late_bound and c.cls == "Signal":
+            # the index of a signal of the model may denote a late-bound signal (Xfrm.cs_decode)
+            subs = "".join(f"\n  | {lc.pat} =>\n {one(lc)}" for lc in late_bound_ctors())
+            body = f"(match cs_decode base i_ with{subs}\n  | None =>\n {body}\n  end)"
         branches.append(f"  | {c.pat} =>\n {body}")
     return "\n".join(branches)
 
@@ -1850,12 +1885,10 @@ def check_coverage(pe):
 
 
 # (method, exact text) never reached by any specialisation, and why
-_OOM_V = "ClockSignal / ResetSignal / AnyValue / Initial are not constructors of Ast.expr"
+_OOM_V = "AnyValue / Initial are not expressions of the model (Ast.expr)"
 _OOM_S = "Print / Property are not statements of the model"
 _OOM_F = "Instance / IOBufferInstance / RequirePosedge are not fragments of the model (Xfrm.frag)"
 UNREACHED_IN = {
-    ("ValueVisitor.on_value", "new_value = self.on_ClockSignal(value)"): _OOM_V,
-    ("ValueVisitor.on_value", "new_value = self.on_ResetSignal(value)"): _OOM_V,
     ("ValueVisitor.on_value", "new_value = self.on_AnyValue(value)"): _OOM_V,
     ("ValueVisitor.on_value", "new_value = self.on_Initial(value)"): _OOM_V,
     ("ValueVisitor.on_value", "new_value = self.on_unknown_value(value)"): _OOM_V,
@@ -2033,7 +2066,7 @@ def unit():
                                        "mems": V("fragment_mems", ("list", "meminst")),
                                        "subs": V("fragment_subs", ("list", "frag")), "src_loc": Unmod("source location")})
 
-    def on_fragment_pair(cls, prefix, self_fields, pname, pty):
+    def on_fragment_pair(cls, prefix, self_fields, pname, pty, xp="", xa=""):
         nonlocal out
         # MemoryInstance
         pe.reset()
@@ -2041,19 +2074,19 @@ def unit():
         body = pe.run(recv, "on_fragment", [mem_obj()], lambda v: pe.materialise(v, None))
         mt = pe.tab_used
         tabp = "(tab : sigtab) " if mt else ""
-        out += f"Definition {prefix}_on_memory {tabp}({pname} : {pty}) (fragment : meminst) : meminst :=\n {body}.\n\n"
-        pe.self_rec[(cls, "on_fragment", "meminst")] = (f"{prefix}_on_memory", mt, pname)
+        out += f"Definition {prefix}_on_memory {xp}{tabp}({pname} : {pty}) (fragment : meminst) : meminst :=\n {body}.\n\n"
+        pe.self_rec[(cls, "on_fragment", "meminst")] = (f"{prefix}_on_memory{xa}", mt, pname)
         # Fragment
         pe.reset()
-        pe.self_rec[(cls, "on_fragment", "frag")] = (f"{prefix}_on_fragment", None, pname)
+        pe.self_rec[(cls, "on_fragment", "frag")] = (f"{prefix}_on_fragment{xa}", None, pname)
         recv = pe.new_obj(cls, self_fields())
         body = pe.run(recv, "on_fragment", [frag_obj()], lambda v: pe.materialise(v, None))
         ft = pe.tab_used
         body = body.replace("@TAB@", "tab " if ft else "")
         tabp = "(tab : sigtab) " if ft else ""
-        out += (f"Fixpoint {prefix}_on_fragment {tabp}({pname} : {pty}) (fragment : frag) {{struct fragment}} : frag :=\n"
+        out += (f"Fixpoint {prefix}_on_fragment {xp}{tabp}({pname} : {pty}) (fragment : frag) {{struct fragment}} : frag :=\n"
                 f"  match fragment with Frag fragment_statements fragment_mems fragment_subs =>\n {body}\n  end.\n\n")
-        pe.self_rec[(cls, "on_fragment", "frag")] = (f"{prefix}_on_fragment", ft, pname)
+        pe.self_rec[(cls, "on_fragment", "frag")] = (f"{prefix}_on_fragment{xa}", ft, pname)
 
     ctl_fields = lambda: {"controls": V("controls", T_DICT_CTL), "src_loc": Unmod("source location")}
     on_fragment_pair("ResetInserter", "reset", ctl_fields, "controls", coqty(T_DICT_CTL))
@@ -2071,20 +2104,20 @@ def unit():
         out += f"Definition {nm} {sig_of(params)} : option {coqty(T_DICT_DOM)} :=\n {body}.\n\n"
     rn_fields = lambda: {"domain_map": V("domain_map", T_DICT_DOM)}
     mk_rn = lambda: pe.new_obj("DomainRenamer", rn_fields())
-    pe.self_rec[("DomainRenamer", "on_value")] = ("rename_on_value", False, "domain_map")
-    pe.self_rec[("DomainRenamer", "on_statement")] = ("rename_on_statement", False, "domain_map")
+    pe.self_rec[("DomainRenamer", "on_value")] = ("rename_on_value base", False, "domain_map")
+    pe.self_rec[("DomainRenamer", "on_statement")] = ("rename_on_statement base", False, "domain_map")
     if pe.resolve("DomainRenamer", "on_value")[0] != "ValueVisitor" or \
             pe.resolve("DomainRenamer", "on_statement")[0] != "StatementVisitor":
         raise Unsupported("DomainRenamer: on_value / on_statement no longer come from the visitors")
     br = specialise(pe, expr_ctors(), mk_rn, "on_value", "value", lambda: [],
-                    lambda recv: (lambda v: pe.to_term(v, "expr", None)), False)
-    out += (f"Fixpoint rename_on_value (domain_map : {coqty(T_DICT_DOM)}) (value : expr) {{struct value}} : expr :=\n"
+                    lambda recv: (lambda v: pe.to_term(v, "expr", None)), False, late_bound=True)
+    out += (f"Fixpoint rename_on_value (base : nat) (domain_map : {coqty(T_DICT_DOM)}) (value : expr) {{struct value}} : expr :=\n"
             f"  match value with\n{br}\n  end.\n\n")
     br = specialise(pe, stmt_ctors(), mk_rn, "on_statement", "stmt", lambda: [],
                     lambda recv: (lambda v: pe.to_term(v, "stmt", None)), False)
-    out += (f"Fixpoint rename_on_statement (domain_map : {coqty(T_DICT_DOM)}) (stmt : Stmt.stmt) {{struct stmt}} : Stmt.stmt :=\n"
+    out += (f"Fixpoint rename_on_statement (base : nat) (domain_map : {coqty(T_DICT_DOM)}) (stmt : Stmt.stmt) {{struct stmt}} : Stmt.stmt :=\n"
             f"  match stmt with\n{br}\n  end.\n\n")
-    on_fragment_pair("DomainRenamer", "rename", rn_fields, "domain_map", coqty(T_DICT_DOM))
+    on_fragment_pair("DomainRenamer", "rename", rn_fields, "domain_map", coqty(T_DICT_DOM), xp="(base : nat) ", xa=" base")
 
     check_coverage(pe)
     return {"XfrmGen.v": out}
